@@ -1,7 +1,11 @@
 (* C08 - Caching is invisible: results depend on current values, not on call history.
-   Only statements, each closed by `exact <lemma>` and followed by Print Assumptions. *)
+   Only statements, each closed by `exact <lemma>` and followed by Print Assumptions.
+
+   `step pf q` is the model of the memoisation plumbing (Model/C08_Cache.v) around an ARBITRARY numerical
+   function pf; `step pf all_off` is the specification; `run_uncached` wipes every memo before every
+   operation; `reachable pf w` = w is the state after some operation list (without Slice) from the empty world. *)
 From Coq Require Import ZArith List Bool.
-From Verif Require Import Lib.C08_Lru Model.C08_Cache Proofs.C08_Witness.
+From Verif Require Import Lib.C08_Lru Model.C08_Cache Proofs.C08_Cache Proofs.C08_Witness.
 Import ListNotations.
 Open Scope Z_scope.
 
@@ -16,3 +20,92 @@ Theorem lru_size_le : forall (K V : Type) (keq : K -> K -> bool) (cap : nat) (f 
   (length (snd (lru_run keq cap f ks [])) <= cap)%nat.
 Proof. exact C08_Lru.lru_size_le. Qed.
 Print Assumptions lru_size_le.
+
+(* for every numerical function and every operation list (create, raw calls, conversions, derived quantities,
+   writes into results, item assignment, attach/replace/detach other, floods of the LRU - everything but
+   Slice), the specification machine shows exactly what the cache-free machine shows.
+   _partial: operation lists containing Slice are not covered by the proof (they are by the correspondence). *)
+Theorem cache_invisible_partial : forall pf ops,
+  (forall s k s', ~ In (Slice s k s') ops) ->
+  fst (run pf all_off empty_world ops) = fst (run_uncached pf all_off empty_world ops).
+Proof. exact cache_invisible_lemma. Qed.
+Print Assumptions cache_invisible_partial.
+
+(* item assignment to a position is followed by the conversion of the NEW contents *)
+Theorem setitem_invalidates : forall pf w s p v w1 x1 w2 x2,
+  reachable pf w -> slot w s = Some p -> 1 <= okind (get_obj w p) ->
+  step pf all_off w (SetRow s v) = (w1, x1) -> step pf all_off w1 (Conv s) = (w2, x2) ->
+  bufs w1 = upd_nth (obuf (get_obj w p)) (write_row0 v) (bufs w)
+  /\ x2 = match pf (convfn (okind (get_obj w p))) 0 [(false, contents w1 (get_obj w1 p))] with
+          | None => None | Some a => Some (a, 0) end.
+Proof. exact setitem_lemma. Qed.
+Print Assumptions setitem_invalidates.
+
+(* mutating the attached `other` is reflected by the next derived quantity (p_read_obs = the quantity computed
+   from the current contents without any memo) *)
+Theorem other_mutation_propagates : forall pf w s t p y v qt w1 x1 w2 x2,
+  reachable pf w -> slot w s = Some p -> slot w t = Some y ->
+  1 <= okind (get_obj w p) -> 1 <= okind (get_obj w y) -> oother (get_obj w p) = Some y ->
+  step pf all_off w (SetRow t v) = (w1, x1) -> step pf all_off w1 (Read s qt) = (w2, x2) ->
+  bufs w1 = upd_nth (obuf (get_obj w y)) (write_row0 v) (bufs w)
+  /\ oother (get_obj w1 p) = Some y
+  /\ x2 = p_read_obs pf w1 p qt.
+Proof. exact other_mutation_lemma. Qed.
+Print Assumptions other_mutation_propagates.
+
+(* writing into a returned result changes nothing *)
+Theorem result_write_isolated : forall pf w c, reachable pf w -> step pf all_off w (WriteRes c) = (w, ok_obs).
+Proof. exact write_isolated_lemma. Qed.
+Print Assumptions result_write_isolated.
+
+(* a raw call leaves every buffer, every flag and every attribute as it was and reports "argument writeable" *)
+Theorem args_untouched : forall pf w o w1 x,
+  reachable pf w -> (exists fn ext s, o = Raw fn ext s) \/ (exists fn s, o = Rot fn s) ->
+  step pf all_off w o = (w1, x) ->
+  bufs w1 = bufs w /\ map o_clear (objs w1) = map o_clear (objs w)
+  /\ (forall a c, x = Some (a, c) -> c = 1 \/ c = -9).
+Proof. exact args_untouched_lemma. Qed.
+Print Assumptions args_untouched.
+
+(* each quirk, switched on alone, breaks the property (computed witnesses) *)
+Theorem c08_key_ignores_shape_refuted :
+  exists pf ops, fst (run pf (mkQ true false false false false) empty_world ops)
+                 <> fst (run_uncached pf (mkQ true false false false false) empty_world ops).
+Proof. exact shape_refuted. Qed.
+Print Assumptions c08_key_ignores_shape_refuted.
+
+Theorem c08_result_aliases_cache_refuted :
+  exists pf ops, fst (run pf (mkQ false true false false false) empty_world ops)
+                 <> fst (run_uncached pf (mkQ false true false false false) empty_world ops).
+Proof. exact alias_refuted. Qed.
+Print Assumptions c08_result_aliases_cache_refuted.
+
+Theorem c08_arg_made_readonly_refuted :
+  exists pf ops, existsb oro (objs (snd (run pf (mkQ false false true false false) empty_world ops))) = true
+                 /\ In (Some (([], []), -1)) (fst (run pf (mkQ false false true false false) empty_world ops)).
+Proof. exact ro_refuted. Qed.
+Print Assumptions c08_arg_made_readonly_refuted.
+
+Theorem c08_view_write_stale_refuted :
+  exists pf ops, fst (run pf (mkQ false false false true false) empty_world ops)
+                 <> fst (run_uncached pf (mkQ false false false true false) empty_world ops).
+Proof. exact view_refuted. Qed.
+Print Assumptions c08_view_write_stale_refuted.
+
+Theorem c08_object_cache_handout_refuted :
+  exists pf ops, fst (run pf (mkQ false false false false true) empty_world ops)
+                 <> fst (run_uncached pf (mkQ false false false false true) empty_world ops).
+Proof. exact hand_refuted. Qed.
+Print Assumptions c08_object_cache_handout_refuted.
+
+Theorem c08_time_cache_ignores_fmt_refuted :
+  exists tf ops, trun tf true ([], []) ops <> trun_uncached tf true ([], []) ops
+                 /\ trun tf false ([], []) ops = trun_uncached tf false ([], []) ops.
+Proof. exact time_refuted. Qed.
+Print Assumptions c08_time_cache_ignores_fmt_refuted.
+
+(* non-vacuity: the witnesses of the refutations are handled correctly by the specification, and a world with
+   objects, memo entries and an attached other is reachable *)
+Example spec_agrees_on_witnesses :
+  forallb (fun ops => negb (differs all_off ops)) [w_shape; w_alias; w_ro; w_view; w_hand] = true.
+Proof. exact spec_on_witnesses. Qed.
